@@ -138,6 +138,20 @@ func (f *Frame) lockOp(mu ssa.Value, lock bool, reach string, st *State, pos tok
 			hv := f.havocOf(ft, "locked_"+fname, st)
 			f.store(st, fmt.Sprintf("(fldp %s %d)", owner, idx), ft, hv)
 		}
+		{
+			hl := heldLock{key: gd.Key, owner: owner}
+			for _, fname := range gd.Fields {
+				if strings.HasPrefix(fname, "*") {
+					continue
+				}
+				for i := 0; i < stt.NumFields(); i++ {
+					if stt.Field(i).Name() == fname {
+						hl.cells = append(hl.cells, immCell{fmt.Sprintf("(fldp %s %d)", owner, i), stt.Field(i).Type()})
+					}
+				}
+			}
+			st.held = append(append([]heldLock(nil), st.held...), hl)
+		}
 		// contents of guarded maps are re-read through the (havocked) field: unknown
 		env := f.lockEnv(gd, owner, elemT, st, st)
 		for _, inv := range gd.Inv {
@@ -232,6 +246,7 @@ func (f *Frame) lockOp(mu ssa.Value, lock bool, reach string, st *State, pos tok
 				f.bail("cs %s ensures %q: %v%s", cs.Mutex, cs.Text, err, where)
 			}
 			f.oblig("cs", pos, fmt.Sprintf("%s section %d: %s", cs.Mutex, f.top.csCount[gd.Key], cs.Text), reach, g)
+			top.markCS(cs.Text)
 		}
 	}
 	h := f.heap(st, hh)
@@ -239,6 +254,17 @@ func (f *Frame) lockOp(mu ssa.Value, lock bool, reach string, st *State, pos tok
 	f.ctx.Fact(fmt.Sprintf("(= %s (store %s %s false))", nh, h, owner))
 	st.heaps[hh] = nh
 	st.heaps[sinceUnlockKey] = st.alloc
+	st.dropHeld(gd.Key, owner)
+}
+
+// dropHeld removes the most recent entry for (key, owner).
+func (s *State) dropHeld(key, owner string) {
+	for i := len(s.held) - 1; i >= 0; i-- {
+		if s.held[i].key == key && s.held[i].owner == owner {
+			s.held = append(append([]heldLock(nil), s.held[:i]...), s.held[i+1:]...)
+			return
+		}
+	}
 }
 
 func (f *Frame) lockEnv(gd *GuardDecl, owner string, elemT types.Type, st, old *State) *SpecEnv {
@@ -415,6 +441,18 @@ func (f *Frame) lockOpLocal(mu ssa.Value, lock bool, reach string, st *State, po
 				}
 			}
 		}
+		{
+			hl := heldLock{key: gd.Key, owner: owner}
+			for _, vn := range gd.Fields {
+				for fr := f; fr != nil; fr = fr.parent {
+					if cell, et, ok := fr.localCell(vn); ok {
+						hl.cells = append(hl.cells, immCell{cell, et})
+						break
+					}
+				}
+			}
+			st.held = append(append([]heldLock(nil), st.held...), hl)
+		}
 		env := mkEnv(st, st)
 		for _, inv := range gd.Inv {
 			g, err := env.evalBool(inv.E)
@@ -473,6 +511,7 @@ func (f *Frame) lockOpLocal(mu ssa.Value, lock bool, reach string, st *State, po
 				f.bail("cs %s ensures %q: %v", cs.Mutex, cs.Text, err)
 			}
 			f.oblig("cs", pos, fmt.Sprintf("%s section %d: %s", cs.Mutex, top.csCount[gd.Key], cs.Text), reach, g)
+			top.markCS(cs.Text)
 		}
 	}
 	h := f.heap(st, hh)
@@ -480,5 +519,14 @@ func (f *Frame) lockOpLocal(mu ssa.Value, lock bool, reach string, st *State, po
 	f.ctx.Fact(fmt.Sprintf("(= %s (store %s %s false))", nh, h, owner))
 	st.heaps[hh] = nh
 	st.heaps[sinceUnlockKey] = st.alloc
+	st.dropHeld(gd.Key, owner)
 	return true
+}
+
+// markCS records that a `cs` clause of the contract applied to some critical section.
+func (f *Frame) markCS(text string) {
+	if f.csHit == nil {
+		f.csHit = map[string]bool{}
+	}
+	f.csHit[text] = true
 }
